@@ -1005,4 +1005,250 @@ theorem onChain_of_valid {verify : Beacon → Bool} {chain : Nat → Beacon} {n 
       cases b
       simp_all
 
+/-! ### the repair path: ReSync, CheckPastBeacons, CorrectPastBeacons -/
+
+theorem loop_not_cancelled (cfg : Cfg) (resync : Bool) (f upTo : Nat) :
+    ∀ (items : List Item) (last : Nat) (n : Node), Item.stall ∉ items →
+      (loop cfg resync f upTo last n items).2 ≠ .cancelled := by
+  intro items
+  induction items with
+  | nil => intro last n _; simp [loop]
+  | cons it rest ih =>
+    intro last n hs
+    cases it with
+    | close => simp [loop]
+    | stall => simp at hs
+    | pkt b idOk =>
+      have hs' : Item.stall ∉ rest := fun h => hs (List.mem_cons_of_mem _ h)
+      unfold loop
+      split
+      · simp
+      · split
+        · simp
+        · split
+          · simp
+          · simp only
+            split
+            · split
+              · simp
+              · exact ih _ _ hs'
+            · split
+              · split <;> simp
+              · simp
+
+theorem tryNode_not_cancelled (cfg : Cfg) (from_ upTo : Nat) (n : Node) (p : Peer) (h : NoStall p) :
+    (tryNode cfg from_ upTo n p).2 ≠ .cancelled := by
+  unfold tryNode
+  simp only
+  split
+  · simp
+  · split
+    · simp
+    · split
+      · simp
+      · next items hs => exact loop_not_cancelled _ _ _ _ items _ _ (h _ _ hs)
+
+/-- peers that never stall never get a sync cancelled -/
+theorem sync_nostall (cfg : Cfg) (self : String) (from_ upTo : Nat) :
+    ∀ (ps : List Peer) (n : Node), (∀ p ∈ ps, NoStall p) →
+      (sync cfg self from_ upTo false n ps).2.2 = false ∧ (sync cfg self from_ upTo false n ps).2.1 ≠ .cancelled := by
+  intro ps
+  induction ps with
+  | nil => intro n _; simp [sync]
+  | cons p ps ih =>
+    intro n h
+    have hps : ∀ q ∈ ps, NoStall q := fun q hq => h q (List.mem_cons_of_mem _ hq)
+    unfold sync
+    split
+    · exact ih n hps
+    · simp only [Bool.false_eq_true, if_false]
+      split
+      · simp
+      · exact ih _ hps
+      · next hc => exact absurd hc (tryNode_not_cancelled cfg from_ upTo n p (h p List.mem_cons_self))
+
+theorem loop_pkt (cfg : Cfg) (resync : Bool) (f upTo last : Nat) (n : Node) (b : Beacon) (idOk : Bool) (rest : List Item) :
+    loop cfg resync f upTo last n (.pkt b idOk :: rest) =
+      if idOk = false then (n, .failed)
+      else if cfg.verify b = false then (n, .failed)
+      else if roundOk cfg resync f upTo last b = false then (n, .failed)
+      else if (store1 cfg resync n b).2 = .ok then
+        (if b.round = upTo then ((store1 cfg resync n b).1, .reached) else loop cfg resync f upTo b.round (store1 cfg resync n b).1 rest)
+      else if (store1 cfg resync n b).2 = .already then (n, if b.round = upTo then .reached else .failed)
+      else (n, .failed) := by
+  rw [loop]
+
+/-- on the repair path tryNode reports success only right after writing a beacon of the target round -/
+theorem loop_resync_reached (cfg : Cfg) (f upTo : Nat) :
+    ∀ (items : List Item) (last : Nat) (n : Node), (loop cfg true f upTo last n items).2 = .reached →
+      ∃ b rest, (loop cfg true f upTo last n items).1.writes = ⟨b, b⟩ :: rest ∧ b.round = upTo ∧ cfg.verify b = true := by
+  intro items
+  induction items with
+  | nil => intro last n h; simp [loop] at h
+  | cons it rest ih =>
+    intro last n h
+    cases it with
+    | close => simp [loop] at h
+    | stall => simp [loop] at h
+    | pkt b idOk =>
+      rw [loop_pkt] at h ⊢
+      have hok : (store1 cfg true n b).2 = .ok := by simp [store1]
+      by_cases h1 : idOk = false
+      · simp [h1] at h
+      · by_cases h2 : cfg.verify b = false
+        · simp [h1, h2] at h
+        · by_cases h3 : roundOk cfg true f upTo last b = false
+          · simp [h1, h2, h3] at h
+          · simp only [h1, h2, h3, hok, if_false, if_true] at h ⊢
+            by_cases heq : b.round = upTo
+            · simp only [heq, if_true]
+              exact ⟨b, n.writes, by simp [store1], heq, by simpa using h2⟩
+            · simp only [heq, if_false] at h ⊢
+              exact ih _ _ h
+
+theorem tryNode_resync_reached (cfg : Cfg) (from_ upTo : Nat) (hf : from_ ≠ 0) (n : Node) (p : Peer)
+    (h : (tryNode cfg from_ upTo n p).2 = .reached) :
+    ∃ b rest, (tryNode cfg from_ upTo n p).1.writes = ⟨b, b⟩ :: rest ∧ b.round = upTo ∧ cfg.verify b = true := by
+  have hd : decide (from_ > 0) = true := by simp; omega
+  unfold tryNode at h ⊢
+  simp only [hd, if_neg hf] at h ⊢
+  by_cases h1 : cfg.lastErr n.st.base = true
+  · simp [h1] at h
+  · by_cases h2 : from_ ≠ 0 ∧ from_ > upTo
+    · simp [h1, h2] at h
+    · simp only [h1, h2, if_false] at h ⊢
+      cases hs : p.serve from_ with
+      | err => simp [hs] at h
+      | stream items =>
+        simp only [hs] at h ⊢
+        exact loop_resync_reached cfg _ upTo items _ _ h
+
+theorem sync_resync_ok (cfg : Cfg) (self : String) (from_ upTo : Nat) (hf : from_ ≠ 0) :
+    ∀ (ps : List Peer) (dead : Bool) (n : Node), (sync cfg self from_ upTo dead n ps).2.1 = .ok →
+      ∃ b rest, (sync cfg self from_ upTo dead n ps).1.writes = ⟨b, b⟩ :: rest ∧ b.round = upTo ∧ cfg.verify b = true := by
+  intro ps
+  induction ps with
+  | nil => intro dead n h; simp [sync] at h
+  | cons p ps ih =>
+    intro dead n h
+    unfold sync at h ⊢
+    split
+    · next hs => rw [if_pos hs] at h; exact ih _ _ h
+    · next hs =>
+      rw [if_neg hs] at h
+      split
+      · next hd => rw [if_pos hd] at h; simp at h
+      · next hd =>
+        rw [if_neg hd] at h
+        simp only at h ⊢
+        split
+        · next hr => exact tryNode_resync_reached cfg from_ upTo hf n p hr
+        · next hr => rw [hr] at h; exact ih _ _ h
+        · next hr => rw [hr] at h; exact ih _ _ h
+
+/-- an honest peer ahead of `to`, reached before any stalling peer, completes a repair request `from_..to` -/
+def Reach (chain : Nat → Beacon) (self : String) (H : Nat) (ps : List Peer) : Prop :=
+  ∃ pre hp post, ps = pre ++ hp :: post ∧ Honest chain H hp ∧ hp.addr ≠ self ∧ ∀ p ∈ pre, NoStall p
+
+theorem loop_resync_honest (cfg : Cfg) (chain : Nat → Beacon) (hround : ∀ r, (chain r).round = r)
+    (hcomp : ∀ r, 1 ≤ r → cfg.verify (chain r) = true) (f to H : Nat) (hf : 1 ≤ f) (hH : to ≤ H) (rest : List Item) :
+    ∀ (d x : Nat) (last : Nat) (n : Node), f ≤ x → x + d = to →
+      (loop cfg true f to last n (honestItems chain x H ++ rest)).2 = .reached := by
+  intro d
+  induction d with
+  | zero =>
+    intro x last n hfx hd
+    rw [honestItems_cons chain (by omega), List.cons_append, loop_pkt]
+    have hv := hcomp x (by omega)
+    have hro : roundOk cfg true f to last (chain x) = true := by
+      unfold roundOk; simp only [if_true, hround]; split <;> simp; omega
+    have hok : (store1 cfg true n (chain x)).2 = .ok := by simp [store1]
+    have hr : (chain x).round = to := by rw [hround]; omega
+    simp [hv, hro, hok, hr]
+  | succ d ih =>
+    intro x last n hfx hd
+    rw [honestItems_cons chain (by omega), List.cons_append, loop_pkt]
+    have hv := hcomp x (by omega)
+    have hro : roundOk cfg true f to last (chain x) = true := by
+      unfold roundOk; simp only [if_true, hround]; split <;> simp; omega
+    have hok : (store1 cfg true n (chain x)).2 = .ok := by simp [store1]
+    have hne : ¬ (chain x).round = to := by rw [hround]; omega
+    simp only [hv, hro, hok, hne, if_false, if_true, Bool.true_eq_false]
+    exact ih (x + 1) _ _ (by omega) (by omega)
+
+theorem sync_resync_reach (cfg : Cfg) (chain : Nat → Beacon) (self : String) (hround : ∀ r, (chain r).round = r)
+    (hcomp : ∀ r, 1 ≤ r → cfg.verify (chain r) = true) (hle : ∀ b, cfg.lastErr b = false)
+    (from_ to H : Nat) (hf : 1 ≤ from_) (hft : from_ ≤ to) (hH : to ≤ H) (ps : List Peer) (hr : Reach chain self H ps) (n : Node) :
+    (sync cfg self from_ to false n ps).2.1 = .ok ∧ (sync cfg self from_ to false n ps).2.2 = false := by
+  obtain ⟨pre, hp, post, rfl, hhon, hself, hpre⟩ := hr
+  revert n
+  induction pre with
+  | nil =>
+    intro n
+    simp only [List.nil_append]
+    unfold sync
+    rw [if_neg hself]
+    simp only [Bool.false_eq_true, if_false]
+    obtain ⟨rest, hserve⟩ := hhon from_ (by omega)
+    have ht : (tryNode cfg from_ to n hp).2 = .reached := by
+      have h0 : from_ ≠ 0 := by omega
+      have hd : decide (from_ > 0) = true := by simp; omega
+      unfold tryNode
+      simp only [hd, if_neg h0, hle, Bool.false_eq_true, if_false, hserve]
+      rw [if_neg (by omega)]
+      exact loop_resync_honest cfg chain hround hcomp from_ to H hf hH rest (to - from_) from_ _ _ (Nat.le_refl _) (by omega)
+    simp [ht]
+  | cons p pre ih =>
+    intro n
+    have ih' := ih (fun q hq => hpre q (List.mem_cons_of_mem _ hq))
+    simp only [List.cons_append]
+    unfold sync
+    split
+    · exact ih' n
+    · simp only [Bool.false_eq_true, if_false]
+      have hnc := tryNode_not_cancelled cfg from_ to n p (hpre p List.mem_cons_self)
+      split
+      · simp
+      · exact ih' _
+      · next h => exact absurd h hnc
+
+/-- a repair is served at the first attempt, or — all peers failing without stalling — at the retry -/
+def RepairOK (chain : Nat → Beacon) (self : String) (H : Nat) (e : List Peer × List Peer) : Prop :=
+  Reach chain self H e.1 ∨ ((∀ p ∈ e.1, NoStall p) ∧ Reach chain self H e.2)
+
+/-- **c10_resync_retry.** `ReSync from..to` with an honest peer holding `to`: if it is reached before any stalling peer
+at the first attempt, or if at the first attempt every peer fails transiently (dial error, early close, bad packet —
+anything but a stall) and it is reached at the one retry `ReSync` makes on `ErrFailedAll`, the repair reports success,
+the context is not cancelled, and the last beacon written is a verifying beacon of round `to`. -/
+theorem c10_resync_retry (cfg : Cfg) (chain : Nat → Beacon) (self : String) (hround : ∀ r, (chain r).round = r)
+    (hcomp : ∀ r, 1 ≤ r → cfg.verify (chain r) = true) (hle : ∀ b, cfg.lastErr b = false)
+    (from_ to H : Nat) (hf : 1 ≤ from_) (hft : from_ ≤ to) (hH : to ≤ H) (n : Node) (ps1 ps2 : List Peer)
+    (hr : RepairOK chain self H (ps1, ps2)) :
+    let r := reSync cfg self from_ to false n ps1 ps2
+    r.2.1 = .ok ∧ r.2.2 = false ∧ ∃ b rest, r.1.writes = ⟨b, b⟩ :: rest ∧ b.round = to ∧ cfg.verify b = true := by
+  have h0 : from_ ≠ 0 := by omega
+  have key : ∀ (m : Node) (ps : List Peer), (sync cfg self from_ to false m ps).2.1 = .ok →
+      (sync cfg self from_ to false m ps).2.1.toRe = .ok ∧
+      ∃ b rest, (sync cfg self from_ to false m ps).1.writes = ⟨b, b⟩ :: rest ∧ b.round = to ∧ cfg.verify b = true :=
+    fun m ps h => ⟨by rw [h]; rfl, sync_resync_ok cfg self from_ to h0 ps false m h⟩
+  unfold reSync
+  simp only [h0, if_false]
+  rcases hr with h1 | ⟨hns, h2⟩
+  · obtain ⟨hok, hd⟩ := sync_resync_reach cfg chain self hround hcomp hle from_ to H hf hft hH ps1 h1 n
+    have hnf : ¬ (sync cfg self from_ to false n ps1).2.1 = .failedAll := by rw [hok]; simp
+    simp only [hnf, if_false]
+    exact ⟨(key n ps1 hok).1, hd, (key n ps1 hok).2⟩
+  · obtain ⟨hd1, hnc⟩ := sync_nostall cfg self from_ to ps1 n hns
+    split
+    · rw [hd1]
+      obtain ⟨hok, hd⟩ := sync_resync_reach cfg chain self hround hcomp hle from_ to H hf hft hH ps2 h2 _
+      exact ⟨(key _ ps2 hok).1, hd, (key _ ps2 hok).2⟩
+    · next hnf =>
+      have hok : (sync cfg self from_ to false n ps1).2.1 = .ok := by
+        cases hres : (sync cfg self from_ to false n ps1).2.1 with
+        | ok => rfl
+        | failedAll => exact absurd hres hnf
+        | cancelled => exact absurd hres hnc
+      exact ⟨(key n ps1 hok).1, hd1, (key n ps1 hok).2⟩
+
 end Drand.Beacon.Sync
